@@ -94,6 +94,12 @@ pub fn generate_parser(
         }
     }
 
+    // Regex recognizers are compiled by the generated parser at the first use.
+    // Report an invalid regex here instead of panicking while parsing.
+    if let LexerType::Default = settings.lexer_type {
+        check_regexes(&grammar, settings.fancy_regex)?;
+    }
+
     let table = LRTable::new(&grammar, settings)?;
     if settings.dot {
         let dot_file = grammar_path.with_extension("dot");
@@ -294,6 +300,33 @@ impl<'g, 's> ParserGenerator<'g, 's> {
             None => parse_quote! { Error },
         }
     }
+}
+
+/// Checks that each regex recognizer can be compiled by the regex engine the
+/// generated parser will use.
+pub(crate) fn check_regexes(grammar: &Grammar, fancy_regex: bool) -> Result<()> {
+    use crate::lang::rustemo_actions::Recognizer;
+    for term in &grammar.terminals {
+        if let Some(Recognizer::RegexTerm(regex)) = &term.recognizer {
+            let regex = format!("^(?:{})", regex.as_ref());
+            let error = if fancy_regex {
+                rustemo::fancy_regex::Regex::new(&regex)
+                    .err()
+                    .map(|e| e.to_string())
+            } else {
+                rustemo::regex::Regex::new(&regex)
+                    .err()
+                    .map(|e| e.to_string())
+            };
+            if let Some(error) = error {
+                return Err(Error::Error(format!(
+                    "Invalid regex recognizer for terminal '{}': {}",
+                    term.name, error
+                )));
+            }
+        }
+    }
+    Ok(())
 }
 
 fn action_name(nonterminal: &NonTerminal, choice: &Choice) -> String {
